@@ -627,7 +627,7 @@ func poolCount(p *config.Pool) (int64, int64, int64) {
 		}
 		sz := int64(math.Pow(2, float64(b-o)))
 
-		cur := ipaddr.NewCursor([]ipaddr.Prefix{*ipaddr.NewPrefix(cidr)})
+		cur := ipaddr.NewCursor([]ipaddr.Prefix{prefixFor(cidr)})
 		firstIP := cur.First().IP
 		lastIP := cur.Last().IP
 
@@ -701,12 +701,21 @@ func ipConfusesBuggyFirmwares(ip net.IP) bool {
 	return ip[3] == 0 || ip[3] == 255
 }
 
+// prefixFor returns the prefix of the given cidr. ipaddr.NewPrefix rewrites the
+// IP of its argument in the 16 bytes form, and the cidrs of the pools are shared
+// with the configuration the reconcilers remember and compare with the newly
+// computed one, so it is given a copy.
+func prefixFor(cidr *net.IPNet) ipaddr.Prefix {
+	c := *cidr
+	return *ipaddr.NewPrefix(&c)
+}
+
 func (a *Allocator) getIPFromCIDR(cidr *net.IPNet, avoidBuggyIPs bool, svc string, ports []Port, sharingKey, backendKey string) net.IP {
 	sk := &key{
 		sharing: sharingKey,
 		backend: backendKey,
 	}
-	c := ipaddr.NewCursor([]ipaddr.Prefix{*ipaddr.NewPrefix(cidr)})
+	c := ipaddr.NewCursor([]ipaddr.Prefix{prefixFor(cidr)})
 	for pos := c.First(); pos != nil; pos = c.Next() {
 		if avoidBuggyIPs && ipConfusesBuggyFirmwares(pos.IP) {
 			continue
